@@ -605,7 +605,7 @@ func main() {
 	driver.Main(driver.Property{
 		ID:        "C12",
 		Level:     "exploration",
-		Rule:      "pure differential, no model: for every cold catalogue entry (hot constructs and random-valued creators exempt) and random chains over deterministic cold sources — (1) building the pipeline subscribes no source; (2) three sequential subscriptions of ONE pipeline value each deliver the trace of the first subscription of a FRESHLY built pipeline and subscribe each source as often as a fresh one does (≤1 unless the operator re-subscribes by definition); (3) 2-8 concurrent subscriptions of one pipeline value each deliver that trace (under -race in thorough); (4) ONE operator value applied to sources A, B (, C) in orders AB, BA, ABA, ABC before any subscription: each resulting pipeline delivers what a fresh operator value over that source alone delivers. Non-trivial: the fresh trace is not empty.",
+		Rule:      "pure differential, no model: for every cold catalogue entry (hot constructs and random-valued creators exempt) and random chains over deterministic cold sources — (1) building the pipeline subscribes no source; (2) three sequential subscriptions of ONE pipeline value each deliver the trace of the first subscription of a FRESHLY built pipeline and subscribe each source as often as a fresh one does (≤1 unless the operator re-subscribes by definition); (3) 2-8 concurrent subscriptions of one pipeline value each deliver that trace (under -race in thorough); (4) ONE operator value applied to sources A, B (, C) in orders AB, BA, ABA, ABC before any subscription: each resulting pipeline delivers what a fresh operator value over that source alone delivers. Non-trivial: the fresh trace is not empty. Also 29 curried multi-source operators (MergeWith*, ConcatWith, RaceWith, OnErrorResumeNextWith, TakeUntil, SkipUntil, SampleWhen, ThrottleWhen, BufferWhen, WindowWhen, SequenceEqual, CombineLatestWith*, ZipWith*): one operator value applied to main sources A,B(,C) in orders AB/BA/ABA/ABC; every pipeline equals a fresh operator over its own source and subscribes only that source.",
 		Assume:    []string{"user callbacks of the catalogue keep no state outside Defer-built closures"},
 		Plan:      plan,
 		Run:       runCase,
